@@ -93,12 +93,12 @@ impl Subscriber for Recorder {
         } else {
             Parent::Ctx
         };
-        let vals = TracedValues::<String>::from_values(a.values());
+        let vals = seen_in_values(a.values());
         st.log.push(HCall::NewSpan(id, data_of(a.metadata()), parent, vals));
         Id::from_u64(id)
     }
     fn record(&self, s: &Id, v: &Record<'_>) {
-        let vals = TracedValues::<String>::from_record(v);
+        let vals = seen_in_record(v);
         self.0.lock().unwrap().log.push(HCall::Record(s.into_u64(), vals));
     }
     fn record_follows_from(&self, s: &Id, f: &Id) {
@@ -112,7 +112,7 @@ impl Subscriber for Recorder {
         } else {
             Parent::Ctx
         };
-        let vals = TracedValues::<String>::from_event(e);
+        let vals = seen_in_event(e);
         self.0.lock().unwrap().log.push(HCall::Event(data_of(e.metadata()), parent, vals));
     }
     fn enter(&self, s: &Id) {
@@ -382,12 +382,20 @@ fn small_value(r: &mut Rng) -> TracedValue {
 
 pub fn gen_values(r: &mut Rng, nfields: usize, max: usize, bogus_names: bool) -> TracedValues<String> {
     let n = r.range(0, max);
+    // `n` DISTINCT names (a collection holds every name once, so drawing with replacement would
+    // almost never produce more than 32 entries): mostly fields of the call site, in random order;
+    // beyond them (and sometimes instead of them) names the call site does not declare
+    let declared = nfields.max(1) + usize::from(bogus_names);
+    let mut pool: Vec<String> = (0..declared.max(n + 2)).map(|i| format!("f{i}")).collect();
     let mut vals = TracedValues::new();
     for _ in 0..n {
         let name = if bogus_names && r.chance(15) {
             format!("x{}", r.below(50))
         } else {
-            format!("f{}", r.below(nfields.max(1) as u64 + u64::from(bogus_names)))
+            // a name from the front part of the pool (declared fields first; names taken are replaced
+            // by undeclared ones from the back)
+            let limit = pool.len().min(declared);
+            pool.swap_remove(r.below(limit as u64) as usize)
         };
         vals.insert(name, small_value(r));
     }
